@@ -10,7 +10,7 @@ import (
 	"verif.local/sim/simcheck"
 )
 
-var zooValueKinds = []string{"int", "int", "str", "bytes", "float", "bool", "list", "tuple", "dict", "set", "nested", "shared", "big", "strlen", "sizes", "sizes", "bigdict", "bigset", "tupslice", "tupslice", "idx1000", "idx1000", "floatspecial", "memo255", "cyclic"}
+var zooValueKinds = []string{"int", "int", "str", "bytes", "float", "bool", "list", "tuple", "dict", "set", "nested", "shared", "big", "strlen", "sizes", "sizes", "bigdict", "bigset", "tupslice", "tupslice", "idx1000", "idx1000", "floatspecial", "memo255", "numtype", "booltype", "cyclicdict", "cyclic"}
 
 // c08Gen: a "function zoo" project plus an `all` target depending on everything.
 func c08Gen(r *rand.Rand, tier string) any {
@@ -63,7 +63,7 @@ func c08Gen(r *rand.Rand, tier string) any {
 		}
 		for k := range t.Refs {
 			if (t.Refs[k].Kind == "default" || t.Refs[k].Kind == "freevar") && r.IntN(2) == 0 {
-				kinds := zooValueKinds[:len(zooValueKinds)-1] // not cyclic (needs statements)
+				kinds := zooValueKinds[:len(zooValueKinds)-2] // not the cyclic ones (they need statements)
 				t.Refs[k].Val = valueSpec{Kind: kinds[r.IntN(len(kinds))], V: r.IntN(40)}
 			}
 		}
@@ -204,9 +204,19 @@ func c08Exec(scAny any, c *simcheck.Ctx) *simcheck.Violation {
 		for _, l := range h.startsIn(step) {
 			started[l] = true
 		}
+		inClosure := map[string]bool{}
+		for _, t := range h.p.closure("//:all") {
+			inClosure[t.label()] = true
+		}
 		for l, k := range h.keys {
-			if before[l] != k && !started[l] {
-				return simcheck.V("fingerprint-misses-change", "after editing %s, which %s references, a build did not re-execute %s", op.Item, l, l)
+			if before[l] != k && !started[l] && inClosure[l] {
+				saw := ""
+				for _, e := range h.w.events {
+					if e.Label == l {
+						saw += e.Kind + "(" + e.Text + ") "
+					}
+				}
+				return simcheck.V("fingerprint-misses-change", "after editing %s, which %s references, a build did not re-execute %s (events: %s)", op.Item, l, l, saw)
 			}
 		}
 		c.St.Count("edits_detected", 1)
